@@ -96,9 +96,58 @@ func blockType(m *wb.Mod, p, r []byte) []byte {
 	return wb.U32(m.TypeIdx(p, r)) // (indices below 64: one byte, also as s33)
 }
 
+// sec frames a section
+func sec(id byte, payload ...[]byte) []byte {
+	var p []byte
+	for _, x := range payload {
+		p = append(p, x...)
+	}
+	return append(append([]byte{id}, wb.U32(uint32(len(p)))...), p...)
+}
+
+// elemItemModules: element segments whose items are constant EXPRESSIONS (`global.get g`): the value of the global
+// becomes a reference in a table / an element instance, so the global must be of the segment's reference type.  One
+// module per (type of the global, segment form, segment reference type) with the types DIFFERENT.
+func elemItemModules(add func(rule, feat string, bin []byte)) {
+	inits := map[byte][]byte{
+		wb.I32: {0x41, 0x2a, 0x0b}, wb.I64: {0x42, 0x2a, 0x0b}, wb.F32: {0x43, 0, 0, 0x80, 0x3f, 0x0b}, wb.F64: {0x44, 0, 0, 0, 0, 0, 0, 0xf0, 0x3f, 0x0b},
+		wasm.ValueTypeV128:      append(append([]byte{0xfd, 0x0c}, make([]byte, 16)...), 0x0b),
+		wasm.ValueTypeExternref: {0xd0, 0x6f, 0x0b}, wasm.ValueTypeFuncref: {0xd0, 0x70, 0x0b},
+	}
+	item := []byte{0x01, 0x23, 0x00, 0x0b} // vec(expr) = [global.get 0]
+	off := []byte{0x41, 0x00, 0x0b}
+	for gt, init := range inits {
+		for _, rt := range []byte{wasm.RefTypeFuncref, wasm.RefTypeExternref} {
+			if gt == rt {
+				continue
+			}
+			forms := map[string][]byte{
+				"passive":     wb.Cat([]byte{0x05, rt}, item),
+				"declarative": wb.Cat([]byte{0x07, rt}, item),
+				"active-6":    wb.Cat([]byte{0x06, 0x00}, off, []byte{rt}, item),
+			}
+			if rt == wasm.RefTypeFuncref {
+				forms["active-4"] = wb.Cat([]byte{0x04}, off, item)
+			}
+			for form, seg := range forms {
+				bin := wb.Cat([]byte{0x00, 0x61, 0x73, 0x6d, 0x01, 0x00, 0x00, 0x00},
+					sec(1, []byte{0x01, 0x60, 0x00, 0x00}),
+					sec(3, []byte{0x02, 0x00, 0x00}),
+					sec(4, []byte{0x01, rt, 0x00, 0x01}),
+					sec(6, []byte{0x01, gt, 0x00}, init),
+					sec(7, []byte{0x01, 0x03, 'r', 'u', 'n', 0x00, 0x01}),
+					sec(9, []byte{0x01}, seg),
+					sec(10, []byte{0x02, 0x02, 0x00, 0x0b}, []byte{0x07, 0x00, 0x41, 0x00, 0x11, 0x00, 0x00, 0x0b}))
+				add(fmt.Sprintf("element item global.get of a %s global in a %s %s segment", wasm.ValueTypeName(gt), form, wasm.RefTypeName(rt)), "v2", bin)
+			}
+		}
+	}
+}
+
 func invalidByConstruction() []ivCase {
 	var out []ivCase
 	add := func(rule, feat string, bin []byte) { out = append(out, ivCase{rule, feat, bin}) }
+	elemItemModules(add)
 	seqs := typeSeqs()
 	// 1. an `if` without `else`: the implicit else arm is the identity, so params and results must be EQUAL
 	for _, p := range seqs {
